@@ -17,13 +17,21 @@ MANIFEST = dict(
           "multiset, Search = membership up to the comparator, Get = i-th element (out of range = index error, not a panic), "
           "Peek = head, Len = count, level = tallest tower (1 when empty), deleting an absent element changes nothing; update[j] "
           "is proved to be the level-j predecessor, which makes the per-level splices one list insertion. "
+          "Lifted to all histories from the constructors (Ekit/Props/C05Rev.lean): in every state reachable from "
+          "NewPriorityQueue(capacity) under every growth choice the queue is well formed, holds at most capacity elements, is "
+          "full/empty exactly when it holds capacity/zero elements, Peek and Dequeue return the same minimum, nothing panics; "
+          "initial + successfully enqueued = dequeued + held as multisets along every history; a full drain returns the held "
+          "multiset in ascending order (enqueue ts then drain = ts sorted). Skip list from NewSkipList, every history, every "
+          "height sequence (contract demanded of Inserts only), ANY lawful comparator incl. ties: AsSlice ascending and = "
+          "inserted minus one cmp-equal element per successful delete as a multiset; Len/Peek/Get/Search agree with it. "
           "Both models are trace acceptors for the real code on every run (heap array incl. slot 0 and slice capacity; tower "
           "heights, level, size and every level chain), tower heights come from several hundred seeds of x/exp/rand per run."),
     note=COMMON_NOTE + " Comparator lawfulness (total preorder) is a hypothesis; harness comparators (natural, k/3 with ties, reversed) "
          "are proved lawful. Slice growth capacity on append and the tower height drawn by randomLevel are oracles (constraints "
          "cap>=len, 1<=h<=MaxLevel, the latter checked on every observed Insert); pointer-level tower splicing is abstracted to the "
          "(value,height) chain and tied by comparing every level chain of the real structure on every step; int overflow of "
-         "capacity+1 and float32 rounding in calCapacity above 2^24 are outside the model.",
+         "capacity+1 and float32 rounding in calCapacity (int(float32(c)*0.625) differs from the model's c*5/8 from slice capacity 3355451 "
+         "upwards, i.e. once 5c >= 2^24 - white-box capacity field only, the shrink still never truncates) are outside the model.",
     technique="Lean 4 invariant + refinement proofs (heap sift loops, per-level predecessor search, induction over histories and all "
               "height sequences) + white-box trace-acceptance correspondence against the real queue and skip list",
 )
